@@ -9,7 +9,6 @@ NA = {
  'C11': 'Round trips go through serde_json parsing/printing and String/number formatting - unbounded loops over text - plus read_init_solution on full problems; outside bounded symbolic execution here.',
  'C12': 'The checker consumes pragmatic JSON models with string ids and std hash maps and needs a core Problem; breach injection is generate-and-run, not a solver query over this code.',
  'C13': 'Readers are line/whitespace tokenisers over BufReader<String> feeding Jobs::new/Fleet::new (rayon, hashing); the only arithmetic kernel (Euclidean matrix + indexing) is decided under C16.',
- 'C17': 'LKH, DBSCAN and k-medoids are built on std HashMap/HashSet/BTreeSet over symbolic keys with an unbounded improvement loop; nothing loop-free and container-free carries the contracts.',
  'C19': 'The GSOM network is a HashMap<Coordinate, Node> grown/compacted with rayon and float geometry; Rosomaxa needs an Environment with thread pools; no kernel of the invariant is loop- and container-free.',
 }
 PENDING = 'check designed (DESIGN.md section 3) but not built/calibrated yet in this session; not claimed until it runs reliably on the unchanged tree'
